@@ -155,7 +155,12 @@ CLAIMS = {
                 'reaching the node, one aggregate call per evaluation whose parameter selects something, depth-first in result order; '
                 'C14_filter_function_once_per_value (P.f(): once per value of P, in order, with that value); '
                 'C14_filter_function_node / C14_aggregate_node (plain value in, result replaces it; aggregate gets ALL values or the '
-                'elements of the single array; not called when nothing is selected; failure names the node). The driver also '
+                'elements of the single array; not called when nothing is selected; failure names the node); '
+                'C14_functions_from_text / C14_calls_from_text (FunParse.v, FunAddr.v): from the path TEXT, `$` steps `.f()` `.g()` with any chain of '
+                'name/index/wildcard/slice/union steps (each possibly after `..`) and registered filter functions parses, returns g(f(v)) for each '
+                'value v the steps reach in the order they reach them (a value a function fails on is dropped; an error when none is left) and '
+                'its call log is exactly f on each v then g on what f returned, left to right until one fails; the harness sends such texts '
+                '(the driver confirms they are Coq chain_fun_path) with calls and results expected from walking the document. The driver also '
                 'compares the model call log with the specification call log on every generated case. Functions inside filter operands '
                 '(short-circuited by design) are outside the theorem and compared with the model call by call; direct protocol oracle '
                 'on the real library.',
